@@ -26,6 +26,7 @@ def run(F, X, rep):
     S.s7_generation_guard(C, rep, "C08-W2")
     S.w3_succeeded_holds_preimage(C, rep, "C08-W3")
     S.w4_fetch_mapping(C, rep, "C08-W4")
+    S.rt_records_roundtrip(C, rep, "C08-W4")
     S.w5_no_deletion_and_keys(C, rep, "C08-W5")
     # "a free marker is written only when nothing is pending or complete": mark_failed is confined to wait==Ok(None) /
     # pay==Err (W2), which mean `nothing pending or complete` only if the provider honours C15-V* / C16-D
